@@ -334,11 +334,27 @@ func TestVerifDetectorLifetime(t *testing.T) {
 			t.Fatalf("behaviour: %v", err)
 		}
 		nbeh++
+		// a station "process" as cmd/application/main.go runs it: the ingest pipeline (HandleRegUpdates) lives under the process
+		// context; a graceful shutdown is  cancel(); wg.Wait(); then the deferred regManager.Cleanup()  - in that order
+		var stopPipeline func()
 		newStation := func() *RegistrationManager {
+			if stopPipeline != nil {
+				stopPipeline()
+			}
 			rm := NewRegistrationManager(&RegConfig{EnableIPv4: true, EnableIPv6: true})
 			rm.Logger = log.New(io.Discard, "", 0)
 			rm.LivenessTester = &vingLive{}
+			rm.IngestWorkerCount = 10
 			_ = rm.AddTransport(pb.TransportType_Min, min.Transport{})
+			ctx, cancel := context.WithCancel(context.Background())
+			wg := new(sync.WaitGroup)
+			wg.Add(1)
+			regChan := make(chan interface{})
+			go rm.HandleRegUpdates(ctx, regChan, wg)
+			stopPipeline = func() { cancel(); wg.Wait(); stopPipeline = nil }
+			// the pipeline is up before the first registration (main.go starts it before the ZMQ ingester delivers anything): an
+			// unparsable message is taken off the unbuffered channel only by the running distributor loop (a worker then drops it)
+			regChan <- []byte{0xff}
 			return rm
 		}
 		rm := newStation()
@@ -413,7 +429,8 @@ func TestVerifDetectorLifetime(t *testing.T) {
 				t.Fatalf("the specification of the intended station never shuts down without a Clear")
 			case "Publish":
 				if op.Op == "Clear" {
-					// graceful shutdown (main.go: defer regManager.Cleanup())
+					// graceful shutdown (main.go: cancel(); wg.Wait(); deferred regManager.Cleanup())
+					stopPipeline()
 					rm.Cleanup()
 					pubWait = 250 * time.Millisecond // clearDetector publishes synchronously: what was not sent when Cleanup returned never will be
 					got := waitPub(before, 1)
@@ -467,6 +484,9 @@ func TestVerifDetectorLifetime(t *testing.T) {
 				evs = append(evs, map[string]any{"a": "Tick", "d": op.D, "clock": clock})
 			}
 			state()
+		}
+		if stopPipeline != nil {
+			stopPipeline()
 		}
 		out.Emit(map[string]any{"kind": "history", "n": nbeh, "events": evs})
 	})
